@@ -45,6 +45,15 @@ CLAIMED = {
  "C13": dict(engine="tlv", design="4 C13", technique="TLA+ spec (ParseLoop: generated ordered/unordered parse loop, critical rule) model-checked by TLC over all small model skeletons; round-trip and unknown-element experiments on every generated model (registry built at check time) validated by TLC",
    text="TLC proves on the ParseLoop module that inserting an unrecognised non-critical element anywhere changes no other field's outcome and that a critical one rejects unless ignored, for every skeleton of up to 3 fields, both loop kinds and every valid input; every generated model discovered by scanning zz_generated.go is then driven with type-directed values: encode, independent TLV walk, decode contiguous and segmented, and an unknown element of each class at each top-level position, each outcome compared by TLC with ParseLoop!Expected. Open finding F30 (map key/value adjacency) is matched by signature.",
    note="Generator-output equality (checked-in zz_generated.go = generator output) is not decided by this family (no state/oracle a TLA+ model adds); behavioural drift of stale generated code is still caught by the round-trip part. " + TB),
+ "C03": dict(engine="tlv", design="4 C03", technique="TLA+ layout oracle (Tlv: VarNum/Nat lengths, Name/MetaInfo/Interest/Data layout) with TLC enumerating packet shapes from boundary sets; real encoder/decoder observations (lengths, tiling, round trip contiguous and segmented, standalone name encoders) validated by TLC",
+   text="The oracle gives, independently of the code, the exact total length, outer length and Name length of every shape; TLC draws shapes (components across the 1/3-byte length boundaries, every optional field subset, multi-buffer content/parameters, all signers) and the harness builds each through MakeData/MakeInterest, walks the bytes with its own TLV reader, decodes them contiguous and at up to 11 segmentations and compares; every observation is judged by DataOK/InterestOK in one TLC pass. This is the 'transcribe a pure function and enumerate its cases' use of TLA+ (weaker than the state-machine properties; stated in DESIGN 8).",
+   note="Field values are compared for equality after the round trip; the oracle speaks about structure and lengths. " + TB),
+ "C04": dict(engine="tlv", design="4 C04", technique="TLA+ spec (RecvPath: decode class, reassembly store, thread dispatch) model-checked by TLC; structure-aware mutants (classes defined in the spec) fed to every decoder and to the real receive path in child processes, outcomes validated by TLC",
+   text="TLC checks on RecvPath that packets are only queued on existing threads and that undecodable/refused frames change nothing, for all bounded frame sequences over boundary field values; every decoder of the check-time registry plus the packet reader and name decoders, through both readers, and handleIncomingFrame / readTlvStream, are driven with every TLV-LENGTH replaced by boundary and huge values, type confusion, nested-length disagreement, truncation, fragment index/count/sequence combinations, token lengths and thread ids; each call is guarded (recover, allocation budget, watchdog) and runs in a child process under an address-space limit so that runtime fatal errors are attributed to the case (outcome CRASH).",
+   note="Unstructured random bytes beyond the enumerated mutation classes are not covered by this family (a fuzzer's job). " + TB),
+ "C12": dict(engine="tlv", design="4 C12", technique="TLA+ layout oracle (Tlv: covered and digested byte ranges per shape) with TLC-enumerated shapes; signer input, parser's covered bytes, validator verdicts and single-bit tampering outcomes of the real code validated by TLC",
+   text="For every TLC-drawn shape and every shipped signer the ranges found in the produced bytes must equal the oracle's SigCovered/DigestCovered ranges, the signer must have been handed exactly those bytes, the parser (contiguous and four-segment presentation) must return exactly those bytes, the matching validator must accept, and flipping single bits inside the signed portion, the signature value or the parameters must lead to a decode error or a rejection. Open finding F33 (type byte of ApplicationParameters) is matched by signature.",
+   note="Cryptographic strength is trusted (crypto/*); tamper positions are confined to the regions the statement names. " + TB),
 }
 NOT_YET = "check not yet built in this commit (work in progress; see DESIGN.md section 4)"
 NA = {}
